@@ -95,9 +95,15 @@ class ForEachVariableDefinition:
         self.line_num = line_num
 
     def evaluate(self, context: RuntimeContext) -> FieldValue:
-        """Disable value caching for this context and evaluate the expression"""
+        """Disable value caching while the for_each expression is evaluated"""
+        previous = context.recalculate_every_time
         context.recalculate_every_time = True
-        ret = self.expression.render(context)
+        try:
+            ret = self.expression.render(context)
+        finally:
+            # only the for_each expression itself is re-evaluated every time;
+            # the template's fields, friends and nested objects keep their state
+            context.recalculate_every_time = previous
         if not isinstance(ret, PluginResultIterator):
             raise DataGenValueError(
                 f"`for_each` value must be a DatasetIterator for `{self.varname}`",
